@@ -11,7 +11,7 @@ import vlib
 def specs(tier):
     import gridlab
 
-    ex = ["contours", "meshmeta", "regions"]
+    ex = ["contours", "meshmeta", "regions", "stencil"]
     S = [gridlab.tokamak_spec("lsn", fpol="linear", extract=ex),
          gridlab.tokamak_spec("cdn", fpol="linear", options={"orthogonal": False}, extract=ex),
          gridlab.circular_spec(options={"poloidal_spacing_method": "linear", "finecontour_Nfine": 200}, extract=ex),
@@ -167,6 +167,22 @@ def oracle(res, g, lines, pend):
     return not bad
 
 
+def stencil_lines(g, name, lines, pend):
+    """dx at centres / x-faces and DDX('#dphidy') of every region through the stencil model (one radial line per region: the middle y)"""
+    h = vlib.f2hex
+    for rid, r in g["extras"]["stencil"].items():
+        pv = r["psi_vals"]
+        opt = lambda x: h(x) if x is not None else ""  # noqa: E731
+        lines.append("c06dx %s / %s / %s" % (" ".join(h(t) for t in pv), opt(r["inner_psi"]), opt(r["outer_psi"])))
+        pend.append((name, r["name"], ("dx", r["dx_centre"][:, 0], r["dx_xlow"][:, 0])))
+        j = r["f_centre"].shape[1] // 2
+        fi = None if r["inner_f"] is None else float(r["inner_f"][j])
+        fo = None if r["outer_f"] is None else float(r["outer_f"][j])
+        lines.append("c06ddx %s / %s / %s / %s / %s / %s" % (" ".join(h(t) for t in r["f_centre"][:, j]), " ".join(h(t) for t in r["f_xlow"][:, j]),
+                                                           " ".join(h(t) for t in r["dx_centre"][:, j]), " ".join(h(t) for t in r["dx_xlow"][:, j]), opt(fi), opt(fo)))
+        pend.append((name, r["name"], ("ddx", r["ddx_centre"][:, j], r["ddx_xlow"][:, j])))
+
+
 def run(res, tier):
     import gridlab
 
@@ -188,12 +204,34 @@ def run(res, tier):
             res.case(key=("grid", name, k), nontrivial=True, sample={"grid": name, "chain": g["extras"]["contours"]["y_groups"][k]} if k == 0 else None)
         if oracle(res, g, lines, pend):
             res.traces += 1
+        stencil_lines(g, name, lines, pend)
     try:
         mo = vlib.lean_driver(lines) if lines else []
     except Exception as ex:
         res.broken("model driver failed", str(ex)[-500:])
         return
     for (name, rid, want), m in zip(pend, mo):
+        if isinstance(want, tuple):
+            kind, w1, w2 = want
+            res.case(key=(kind, name, rid), nontrivial=True)
+            p1, p2 = m.split("|")
+            g1 = np.array([vlib.hex2f(t) for t in p1.split()])
+            g2 = np.array([vlib.hex2f(t) for t in p2.split()])
+            bad = None
+            for lab, gg, ww in (("centre", g1, w1), ("x-faces", g2, w2)):
+                if len(gg) != len(ww) or np.max(np.abs(gg - ww)) > 1e-11 * max(1e-300, np.max(np.abs(ww))):
+                    bad = lab
+            if bad:
+                i = int(np.argmax(np.abs(g2 - w2))) if bad == "x-faces" and len(g2) == len(w2) else -1
+                what = "dx" if kind == "dx" else "ShiftTorsion = DDX(dphidy)"
+                if kind == "dx" and bad == "x-faces" and len(g2) == len(w2):
+                    res.violation("dx-faces:%s" % name, "%s region %s: dx at x-face %d is %r; the psi difference between the neighbouring cell centres is %r"
+                                  % (name, rid, i, float(w2[i]), float(g2[i])), {"grid": name, "region": rid})
+                else:
+                    res.broken("%s at the %s differs from the stencil model" % (what, bad), {"grid": name, "region": rid, "model": g2.tolist()[:6], "implementation": np.asarray(w2).tolist()[:6]})
+            else:
+                res.traces += 1
+            continue
         got = np.array([vlib.hex2f(t) for t in m.split()])
         res.case(key=("cumtrapz", name, rid), nontrivial=True)
         if len(got) != len(want) or np.max(np.abs(got - want)) > 1e-12 * max(1e-300, np.max(np.abs(want))):
